@@ -18,6 +18,12 @@ fn is_write_kind(op: &Op) -> bool {
     )
 }
 
+/// does the program choose not to persist somewhere (database / keyspace level manual journal
+/// persist, or a batch with `durability(None)`)?
+fn is_manual(case: &Case) -> bool {
+    case.cfg.db_manual_persist || case.cfg.ks.iter().any(|k| k.manual_persist) || case.ops.iter().any(|o| matches!(o, Op::Batch { dur, .. } if dur % 5 == 1))
+}
+
 /// model-only application of a (possibly failed) operation
 fn apply_model(st: &State, op: &Op) -> State {
     let mut s = st.clone();
@@ -79,6 +85,10 @@ pub fn fault_check(sb: &Sandbox, case: &Case, fail: &str) -> Result<bool, String
         if let Some((i, e)) = m.errors.first() {
             return Err(format!("a short write (no error) on the journal made operation {i} fail: {e}"));
         }
+        if is_manual(case) {
+            // manual persist: what is on disk after the run is the caller's business
+            return Ok(true);
+        }
         let acked = states.last().unwrap().state.clone();
         let cfg = case.cfg.clone();
         let root = sb.root.clone();
@@ -107,6 +117,14 @@ pub fn fault_check(sb: &Sandbox, case: &Case, fail: &str) -> Result<bool, String
     }
     let res = |i: usize| m.results.get(&i).map(String::as_str);
     let mut attempted_after = 0;
+    // "on that database instance": a reopen after the fault creates a new instance, and a fault that
+    // fires inside a reopen (drop-time flush, recovery) has no failing foreground write; such runs
+    // are not judged
+    if let Some(f) = fop {
+        if case.ops[f..].iter().any(|o| matches!(o, Op::Reopen { .. })) {
+            return Ok(false);
+        }
+    }
     if let Some(f) = fop {
         if is_write_kind(&case.ops[f]) && res(f) == Some("ok") {
             return Err(format!(
@@ -131,6 +149,21 @@ pub fn fault_check(sb: &Sandbox, case: &Case, fail: &str) -> Result<bool, String
                 }
             }
         }
+    }
+    // under manual journal persist an acknowledged write is by contract not yet persisted: only the
+    // fail-stop clauses above apply, the recovered content is not compared (reopen must still work)
+    let manual = is_manual(case);
+    if manual {
+        let cfg = case.cfg.clone();
+        let root = sb.root.clone();
+        let r = std::panic::catch_unwind(std::panic::AssertUnwindSafe(|| -> Result<(), String> {
+            open_db(&root, &cfg, &OpenOpts { workers: 0, lz4: cfg.journal_lz4 }).map(|_| ()).map_err(|e| format!("reopening after the I/O failure failed: {e:?}"))
+        }));
+        match r {
+            Ok(x) => x?,
+            Err(_) => return Err("recovery panicked after the I/O failure (manual persist)".into()),
+        }
+        return Ok(fop.is_some() && attempted_after >= 1);
     }
     // fault-free reopen: acknowledged state, the failed operation wholly present or wholly absent
     let acked = states.last().unwrap().state.clone();
